@@ -726,13 +726,13 @@ theorem joinBytes_eq_intercalate (sep : Bytes) (ss : List Bytes) :
       simp [List.intercalate, List.intersperse]
 
 theorem sprintNonNil_eq (xs : List GoVal) :
-    sprintNonNil xs = sprintAll (xs.filter (fun x => !x.isNil)) := by
+    sprintNonNil xs = sprintAll ((xs.filter (fun x => !x.isNil)).map GoVal.resolveDrops) := by
   induction xs with
   | nil => simp [sprintNonNil, sprintAll]
   | cons x xs ih =>
     unfold sprintNonNil
     cases h : x.isNil
-    · simp [h, sprintAll, ih]
+    · simp [h, sprintAll, sprintR, ih]
     · simp [h, ih]
 
 /-- the total version of `propOf`: nil where the lookup is outside the model -/
